@@ -116,6 +116,10 @@ func evalC06(c c06Case) (f *Failure, nontrivial bool, out c06Result) {
 						st.lateEvents++
 					}
 					mu.Unlock()
+					s.Join(sio.Room(fmt.Sprintf("burst-%d", i%5))) // handlers change the membership while the connection may be ending
+					if i%3 == 0 {
+						s.Leave(sio.Room(fmt.Sprintf("burst-%d", (i+1)%5)))
+					}
 					s.Emit("y", i, b)
 				})
 				s.OnEvent("rt", func(ack func(string)) { ack("pong") })
